@@ -98,6 +98,19 @@ CHECKS = {
             'textbook definitions in the Props file.  Partial: IEEE floating point is not modelled, only tested '
             '(rel. tol. 1e-9 on magnitudes 1e-3..1e3); x/0 is a call status in the executable version.',
             '§5 C18'),
+    'C15': ('correspondence',
+            'Lean 4 theorems over a loader model (regexes as functions on character lists proved for ALL strings, '
+            'transformer pipeline, population, postponed events); tied to model/world.py by correspondence incl. an '
+            'exhaustive small-scope comparison of the regex functions with Python re',
+            'Theorems in lean/DesperProofs/Props/C15.lean: pass-through of every non-marker argument for all '
+            'character lists, reference resolution (${}, $res{}, $handle{}), exact content of the loaded world for '
+            'well-formed descriptions (decidable predicate), returned disabled then on_add once each in order and '
+            'on_world_load once per listener.  Correspondence: real JSON files, real ResourceMap trees and '
+            'WorldFromFileHandle, importable scenario modules, dictionary path as well.',
+            'Trusted: Lean kernel; reading of the statement; correspondence harness.  json.load, importlib, lru_cache '
+            'and Python re are modelled (re validated exhaustively on short strings over the marker alphabet), not '
+            'verified.  Known finding D25 (string-valued ${} result resolved a second time) carried with a guard.',
+            '§5 C15'),
 }
 
 NOT_YET = 'check not built yet (work in progress; see DESIGN.md §5 for the plan)'
